@@ -64,7 +64,7 @@ fn fnv1a_ref(bytes: &[u8; 60]) -> u64 {
 #[kani::unwind(61)]
 fn meta_hash_covers_canonical() {
     let m = any_meta();
-    fnv::jv_set_cheap(true); // compare two checksum computations: see env/fnv
+    crate::jv_top_stubs::hash_cheap(true); // compare two checksum computations: see env/fnv
     let log = fnv::jv_log();
     log.on = true;
     log.n = 0;
@@ -172,8 +172,7 @@ fn oldmeta_bytes_canonical() {
 #[kani::proof]
 #[kani::unwind(9)]
 fn oldmeta_into_meta() {
-    #[cfg(not(feature = "jv_real"))]
-    fnv::jv_set_cheap(true);
+    crate::jv_top_stubs::hash_cheap(true);
     let o = any_old_meta();
     let m: Meta = (&o).into();
     assert!(m.meta_page == o.meta_page);
